@@ -205,7 +205,8 @@ class MergeIndexMap(Contract):
 
 
 def contracts():
-    return [MergeIndexMap(True), MergeIndexMap(False)]
+    from contracts import C12_support
+    return [MergeIndexMap(True), MergeIndexMap(False)] + C12_support.contracts()
 
 
 TRUSTED = ['pyvc symbolic executor and its Python model (DESIGN 2.3), loop rule (init / preserve / use, havoc of assigned names)',
